@@ -297,6 +297,18 @@ fn check(ctx: &mut Ctx, f: Fmt, x: &LexNarsese, family: &str) {
 
 pub fn run(ctx: &mut Ctx) {
     let mut rng = ctx.rng(0xC02);
+    // many threads at once (two per core) in the lexical formatter and parser, on values that hold alone
+    if ctx.shard < 4 {
+        let mut crng = ctx.rng(0x7C02);
+        let mut cases: Vec<(Fmt, LexNarsese)> = vec![];
+        for f in ALL_FMT {
+            let lg = LexGen::new(f, false);
+            cases.extend((0..40usize).map(|i| (f, lg.narsese(&mut crng, 1 + i % 3))));
+        }
+        let rounds = if ctx.thorough { 60 } else { 6 };
+        concurrent_family(ctx, "C02", "lexical format-then-parse", cases, rounds, |c| failure(c.0, &c.1));
+    }
+
     // (1) vocabulary sweep: every prefix, connecter (arity 1..3), copula, set bracket, punctuation, stamp form
     let mut idx = 0usize;
     for f in ALL_FMT {
